@@ -1,26 +1,3 @@
 package rules
 
-import (
-	"fmt"
-	"sort"
-
-	"scicheck/internal/core"
-)
-
-func init() { Registry["DBG"] = dbg }
-
-func dbg(e *Env) {
-	fi := e.formatter()
-	fmt.Println("problems", fi.problems, "tag", fi.tagField)
-	var ls []string
-	for l := range fi.arms {
-		ls = append(ls, l)
-	}
-	sort.Strings(ls)
-	for _, l := range ls {
-		for _, a := range fi.arms[l] {
-			fmt.Printf("ARM %q: %s\n", l, a.sym)
-		}
-	}
-	_ = core.Top
-}
+func init() {}
